@@ -1939,7 +1939,7 @@ pub fn run(ctx: &mut Ctx, profile: Profile) -> &'static str {
         run_case(ctx, fx, *pc, &b, simple(vec![None, Some(1)], 2), "corpus_sibling_loss", 20);
     }
 
-    // ---- the shared prediction cache (C08 finding predict/cache-key-collision, seen from the batch) ----
+    // ---- the shared prediction cache (C08 finding predict/cache-rounding-collision, seen from the batch) ----
     if profile == Profile::C06 {
         id += 1;
         if let Some((fx, _)) = make_fixture(&root, id, &mut frng, "energy_rounded_cache", vec![], Traversal::Energy { cache: true }, false, None, 1, true) {
